@@ -28,15 +28,15 @@ type verifSList struct {
 }
 
 func (s *verifSList) UsableSpeakers() speakerlist.SpeakerListInfo { return s.info }
-func (s *verifSList) Rejoin()                                    {}
+func (s *verifSList) Rejoin()                                     {}
 
 // l2Node is the per-node part of a view.
 type l2Node struct {
-	Alive   bool `json:"alive"`
-	Known   bool `json:"known"`
-	Cond    int  `json:"cond"` // 0 ok, 1 NetworkUnavailable, 2 exclude label, 3 both
-	Sel     int  `json:"sel"`  // 0 not selected, 1 selected by adv1, 2 by adv2, 3 by both
-	EP      int  `json:"ep"`   // 0 none, 1 ready=true, 2 ready=nil, 3 ready=false serving=true, 4 ready=false serving=false, 5 ready=false serving=nil, 6 terminating but serving, 7 two pods on the node: stopped then ready, 8 ready then stopped
+	Alive bool `json:"alive"`
+	Known bool `json:"known"`
+	Cond  int  `json:"cond"` // 0 ok, 1 NetworkUnavailable, 2 exclude label, 3 both
+	Sel   int  `json:"sel"`  // 0 not selected, 1 selected by adv1, 2 by adv2, 3 by both
+	EP    int  `json:"ep"`   // 0 none, 1 ready=true, 2 ready=nil, 3 ready=false serving=true, 4 ready=false serving=false, 5 ready=false serving=nil, 6 terminating but serving, 7 two pods on the node: stopped then ready, 8 ready then stopped
 }
 
 type l2View struct {
@@ -346,10 +346,10 @@ func TestVerif_C04(t *testing.T) {
 	const a4, a6, b4 = "10.0.0.5", "fc00::5", "10.0.0.9"
 	svcSets := [][][]string{
 		{{a4}}, {{a6}}, {{a4, a6}}, {{a6, a4}},
-		{{a4}, {a4}},           // two services, same list
-		{{a4, a6}, {a4, a6}},   //
-		{{a4}, {a4, a6}},       // single-stack sharing a4 with a dual-stack service listing a4 first
-		{{a4}, {a6, a4}},       // ... listing a6 first (H15)
+		{{a4}, {a4}},         // two services, same list
+		{{a4, a6}, {a4, a6}}, //
+		{{a4}, {a4, a6}},     // single-stack sharing a4 with a dual-stack service listing a4 first
+		{{a4}, {a6, a4}},     // ... listing a6 first (H15)
 		{{b4}},
 	}
 	var distinct int64
@@ -478,6 +478,18 @@ type c12Case struct {
 	T        []string `json:"other_set"`
 	MapOrder []int    `json:"map_order_choices,omitempty"`
 	Local    bool     `json:"local_policy"`
+	Names    string   `json:"node_name_universe,omitempty"` // "" = short names, "long" = names longer than 64 characters with a common 64-character prefix
+}
+
+var l2ShortNames = []string{"n1", "n2", "n3", "n4", "n5"}
+
+// long names as managed clusters generate them (cluster-pool-group-random suffix): longer than a hash block, equal in the first 64 characters
+var l2LongNames = []string{
+	"gke-prod-europe-west4-payments-general-purpose-n2-standard-8-5f3a9c1e-x7k2",
+	"gke-prod-europe-west4-payments-general-purpose-n2-standard-8-5f3a9c1e-b0qd",
+	"gke-prod-europe-west4-payments-general-purpose-n2-standard-8-5f3a9c1e-m4vz",
+	"gke-prod-europe-west4-payments-general-purpose-n2-standard-8-5f3a9c1e-a1aa",
+	"gke-prod-europe-west4-payments-general-purpose-n2-standard-8-5f3a9c1e-zz9z",
 }
 
 func (f *l2Fixture) winner(set []string, addrs []string, svcName string, local bool, order []int) []string {
@@ -531,8 +543,20 @@ func isSubset(a, b []string) bool {
 func TestVerif_C12(t *testing.T) {
 	res := verifrt.NewResult("C12")
 	defer res.Write()
-	f := newL2Fixture()
-	all := subsetsOf(l2NodeNames)
+	fixtures := map[string]*l2Fixture{}
+	var f *l2Fixture
+	useNames := func(kind string) {
+		l2NodeNames = l2ShortNames
+		if kind == "long" {
+			l2NodeNames = l2LongNames
+		}
+		if fixtures[kind] == nil {
+			fixtures[kind] = newL2Fixture()
+		}
+		f = fixtures[kind]
+	}
+	defer func() { l2NodeNames = l2ShortNames }()
+	useNames("")
 	addrCatalogue := [][]string{{"10.0.0.5"}, {"10.0.0.6"}, {"fc00::5"}, {"10.0.0.5", "fc00::5"}, {"fc00::5", "10.0.0.5"}, {"192.168.1.240"}, {"10.0.0.7"}, {"10.0.0.8"}}
 	nAddr := 40
 	if verifrt.Thorough() {
@@ -543,6 +567,7 @@ func TestVerif_C12(t *testing.T) {
 	}
 	check := func(c c12Case) {
 		res.Count("evaluations", 1)
+		useNames(c.Names)
 		wS := f.winner(c.S, c.Addrs, "svcA", c.Local, c.MapOrder)
 		if len(wS) != 1 || !contains(c.S, wS[0]) {
 			if len(c.MapOrder) == 0 || c12ConfirmNative(f, res, c, f.winner(c.S, c.Addrs, "svcA", c.Local, nil)) {
@@ -607,29 +632,37 @@ func TestVerif_C12(t *testing.T) {
 	}
 	var distinct int64
 	work := 0
-	for _, addrs := range addrCatalogue {
-		for _, local := range []bool{false, true} {
-			work++
-			if !verifrt.Mine(work) {
-				continue
-			}
-			for _, S := range all {
-				c := c12Case{Addrs: addrs, S: S, Local: local}
-				res.Sample(c)
-				check(c)
-				distinct++
-				// every explored map-iteration order of the candidate list
-				for _, ord := range c12Orders(len(S)) {
-					cc := c
-					cc.MapOrder = ord
-					check(cc)
-					distinct++
+	for _, kind := range []string{"", "long"} {
+		useNames(kind)
+		all := subsetsOf(l2NodeNames)
+		cat := addrCatalogue
+		if kind == "long" && len(cat) > 20 {
+			cat = cat[:20]
+		}
+		for _, addrs := range cat {
+			for _, local := range []bool{false, true} {
+				work++
+				if !verifrt.Mine(work) {
+					continue
 				}
-				for _, T := range all {
-					if (isSubset(T, S) || isSubset(S, T)) && len(T) != len(S) {
-						cc := c12Case{Addrs: addrs, S: S, T: T, Local: local}
+				for _, S := range all {
+					c := c12Case{Addrs: addrs, S: S, Local: local, Names: kind}
+					res.Sample(c)
+					check(c)
+					distinct++
+					// every explored map-iteration order of the candidate list
+					for _, ord := range c12Orders(len(S)) {
+						cc := c
+						cc.MapOrder = ord
 						check(cc)
 						distinct++
+					}
+					for _, T := range all {
+						if (isSubset(T, S) || isSubset(S, T)) && len(T) != len(S) {
+							cc := c12Case{Addrs: addrs, S: S, T: T, Local: local, Names: kind}
+							check(cc)
+							distinct++
+						}
 					}
 				}
 			}
